@@ -740,6 +740,12 @@ def diff(ctx: Ctx) -> List[Ob]:
         okr_ = not dep
     obs.append(ctx.tri("DIFF", ["C11"], cmp_, "matched children are compared recursively independent of `ordered` and of their position", None, okr_,
                        f"the recursion runs only under {dep if recs_ and dep else ''}: children below a matched node that changed its position would be missing from the result"))
+    cc_ = m.func("_copy_children")
+    rc_ = [c for c in ast.walk(cc_.node) if isinstance(c, ast.Call) and isinstance(c.func, ast.Name) and c.func.id == cc_.name]
+    if rc_:
+        dep_ = [("" if p_ else "not ") + norm(e_) for c in rc_ for e_, p_ in _pc(ctx, cc_, c) if any(isinstance(x, ast.Name) and x.id == "meta" for x in ast.walk(e_))]
+        obs.append(ctx.tri("DIFF", ["C11"], cc_, "_copy_children copies the whole branch (the recursion does not depend on the mark)", None, not dep_,
+                           f"recursion under {dep_}: only the marked level and its children are copied, deeper descendants of an added branch are missing"))
     fc = [c for c in ast.walk(cmp_.node) if isinstance(c, ast.Call) and norm(c.func) == "_find_child"]
     O(cmp_, "peers of first-tree children are searched among the second node's children", len(fc) == 1 and norm(fc[0].args[0]) == f"{p1}.children")
     om = [c for c in ast.walk(cmp_.node) if isinstance(c, ast.Call) and isinstance(c.func, ast.Attribute) and c.func.attr == "set_meta"
@@ -801,6 +807,13 @@ def diff(ctx: Ctx) -> List[Ob]:
                 # unless the loop does not look at DC.REMOVED at all
                 ok = None if any("DC.REMOVED" in norm(x) for x in ast.walk(lp)) else False
                 why = f"guard {[canon_list(e) for e in guard]} / MOVED_TO receiver `{norm(recv)}`"
+                # witness: MOVED_TO is put on every clone, whatever its mark
+                if isinstance(recv, ast.Name) and not t_ok:
+                    its_ = [norm(resolve_expr(ctx, f, to[0], it, keep=[t2])) for it in loop_var_iter(ctx, f, recv.id)]
+                    to_conds = [norm(e) for e, pol in path_conds(ctx, f, to[0]) if id(getattr(e, "_orig", e)) in {id(x) for x in ast.walk(lp)}]
+                    if its_ and all(t_.endswith(".get_clones()") for t_ in its_) and not any("REMOVED" in t_ for t_ in to_conds):
+                        ok = False
+                        why = f"MOVED_TO is set on every element of `{its_[0]}`: unchanged clones that exist in both trees become moved-away"
                 all_conds = [e for e, pol in path_conds(ctx, f, here[0]) if id(getattr(e, "_orig", e)) in {id(x) for x in ast.walk(lp)}]
                 if not all_conds:
                     ok = False  # witness: MOVED_HERE is set on every added node (or once per clone), whatever its clones are marked
@@ -812,6 +825,11 @@ def diff(ctx: Ctx) -> List[Ob]:
     flt = find_under(ctx, f, f"{t2}.filter(predicate=$pr)", [("reduce", True)]) or find_under(ctx, f, f"{t2}.filter($pr)", [("reduce", True)])
     all_flt = find(f"{t2}.filter($$x)", f.node) + find(f"{t2}.filter(predicate=$$x)", f.node)
     ok = None
+    extra_ = [("" if p_ else "not ") + norm(e_) for n_, _e in flt for e_, p_ in path_conds(ctx, f, n_) if norm(e_) != "reduce"] if flt else []
+    if extra_:
+        ok = False  # reduce must filter whenever it is asked for (an unchanged pair reduces to the empty tree)
+        obs.append(ctx.tri("DIFF", ["C11", "C08"], f, "reduce=True always filters the result", None, False,
+                           f"the filter also depends on {extra_}: with nothing added or removed the unreduced tree comes back"))
     if len(flt) == 1 and len(all_flt) == 1:
         pr = [g for g in f.nested if g.name == flt[0][1]["$pr"]]
         if pr and len(pr[0].positional_params()) == 1:
